@@ -8,6 +8,8 @@ import LpProofs.C19.Workload
 import LpProofs.C19.Range
 import LpProofs.C19.Closest
 import LpProofs.C19.Stats
+-- coverage extension: DataPoint ordering operators and std::sort (property theorems in this module)
+import LpProofs.C19.DataPoint
 import Mathlib.Tactic.Ring
 import Mathlib.Tactic.Linarith
 import Mathlib.Tactic.FieldSimp
